@@ -34,20 +34,12 @@ MANIFEST = dict(
 )
 
 IMPORTS = ['Coq.Lists.List', 'Coq.NArith.NArith', 'Coq.Bool.Bool', 'SV.KV.KvBase', 'SV.KV.KvLex', 'SV.KV.KvParse',
-           'SV.KV.KvSer', 'SV.KV.KvSym', 'SV.KV.KvExport', 'SV.Gen.KVSer_gen']
+           'SV.KV.KvSer', 'SV.KV.KvSym', 'SV.KV.KvExport', 'SV.KV.KvEnum', 'SV.Gen.KVSer_gen']
 IMPORTS_REFINE = ['Coq.Lists.List', 'Coq.NArith.NArith', 'Coq.Bool.Bool', 'SV.Text.Str', 'SV.Text.Prog', 'SV.Text.Tokenizer',
                   'SV.Text.TokGen', 'SV.KV.KvBase', 'SV.KV.KvLex', 'SV.KV.KvParse', 'SV.KV.KvRefine', 'SV.Gen.KVSer_gen']
 PRE = '''Import ListNotations. Open Scope N_scope.
 Fixpoint bad_idx {A} (f : A -> bool) (n : N) (l : list A) : list N :=
   match l with [] => [] | x :: r => (if f x then [] else [n]) ++ bad_idx f (n + 1) r end.
-Definition lexerr_code (e : lexerr) : N := match e with
-  | LFlagNewline => 1 | LFlagNest => 2 | LFlagEof => 3 | LParenNest => 4 | LParenEof => 5 | LCloseBracket => 6
-  | LCloseParen => 7 | LStarComment => 8 | LSingleSlash => 9 | LNoEscape => 10 | LUnterminated => 11
-  | LUnexpectedChar => 12 end.
-Definition perr_code (e : perr) : N := match e with
-  | ELex e => lexerr_code e | EBlockAfterValue => 20 | EBlockRequired => 21 | ENewlineKey => 22
-  | EExpectedNewline => 23 | EMultipleNames => 24 | ETooManyClose => 25 | EUnexpected => 26 | EEofBlock => 27
-  | EEofOpen => 28 | EIndex => 29 | ENewlineValue => 30 end.
 (* expected result: inl (inl doc) = root with children, inl (inr k) = single node, inr code = error kind *)
 Definition agree (r : pres) (e : (list kv + kv) + N) : bool :=
   match r, e with
@@ -56,9 +48,6 @@ Definition agree (r : pres) (e : (list kv + kv) + N) : bool :=
   | PErr x, inr c => perr_code x =? c
   | _, _ => false end.
 Definition flag_tbl (t : list (str * bool)) (s : str) : bool := existsb (fun p => str_eqb (fst p) s && snd p) t.
-Definition mkopts (b : N) : popts :=
-  {| po_newline_keys := N.testbit b 0; po_newline_values := N.testbit b 1; po_single_line := N.testbit b 2;
-     po_single_block := N.testbit b 3 |}.
 Definition parse_case (c : ((str * N) * list (str * bool)) * ((list kv + kv) + N)) : bool :=
   agree (parse_kv_opts gen_parsecfg (mkopts (snd (fst (fst c)))) gen_escfg (flag_tbl (snd (fst c))) (fst (fst (fst c))))
         (snd c).
@@ -469,6 +458,122 @@ def finish_parse(ck: Ck, cases, parts, results) -> None:
         t, f, r, b = min((cases[i] for i in bad), key=lambda c: len(c[0]))
         ck.tie_broken.append('correspondence parse (KV/KvLex.v + KV/KvParse.v vs Tokenizer + Keyvalues.parse)')
         ck.extra['parse_disagreement'] = {'text': t, 'flags': f, 'impl': r, 'options': bits_opts(b), 'n': len(bad)}
+
+
+# ------------------------------------------------------------------------------------------------ exhaustive token-level tie
+M63 = (1 << 63) - 1
+SYM_TOKENS = ['a', 'b', 'a\n', None, None, None, 'on', 'off', None]     # values of the 9 symbols of KV/KvEnum.v sym_tok
+
+
+def hash63(xs) -> int:
+    """hfin (hash_list xs) of KV/KvEnum.v."""
+    h = 1469598103934665603
+    for x in xs:
+        h = (h * 1099511628211 + x + 1) & M63
+    h1 = ((h ^ (h >> 29)) * 0x3F58476D1CE4E5B9) & M63
+    return h1 ^ (h1 >> 32)
+
+
+def enc_tree(t) -> list[int]:
+    if t[0] == 'L':
+        return [1, len(t[1]), *map(ord, t[1]), len(t[2]), *map(ord, t[2])]
+    out = [2, len(t[1]), *map(ord, t[1]), len(t[2])]
+    for c in t[2]:
+        out += enc_tree(c)
+    return out
+
+
+def enc_result(r) -> list[int]:
+    if r[0] == 'ok':
+        out = [1, len(r[1])]
+        for t in r[1]:
+            out += enc_tree(t)
+        return out
+    if r[0] == 'node':
+        return [2, *enc_tree(r[1])]
+    return [3, r[1]]
+
+
+def words(n: int):
+    """Same set as KV/KvEnum.v words sym_alpha n (the checksum is a sum: order does not matter)."""
+    import itertools
+    for k in range(n + 1):
+        yield from itertools.product(range(9), repeat=k)
+
+
+def scripted_parse(word, bits: int, fin: int):
+    """Keyvalues.parse fed by a scripted tokenizer producing the tokens of `word`, then EOF (fin=0) or the
+    tokenizer error 'Unterminated string!' (fin=1)."""
+    from srctools.tokenizer import BaseTokenizer, Token
+    kinds = [Token.STRING, Token.STRING, Token.STRING, Token.NEWLINE, Token.BRACE_OPEN, Token.BRACE_CLOSE,
+             Token.PROP_FLAG, Token.PROP_FLAG, Token.EQUALS]
+    vals = ['a', 'b', 'a\n', '\n', '{', '}', 'on', 'off', '=']
+
+    class Scripted(BaseTokenizer):
+        def __init__(self, w):
+            super().__init__(None, None)
+            self.it = iter(w)
+
+        def _get_token(self):
+            s = next(self.it, None)
+            if s is None:
+                if fin:
+                    raise self.error('Unterminated string!')
+                return Token.EOF, ''
+            return kinds[s], vals[s]
+    return impl_parse(Scripted(word), None, bits_opts(bits), {'on': True})
+
+
+def corr_tokens(ck: Ck) -> None:
+    """Exhaustive small scope at the token level."""
+    n = 5 if ck.thorough else 4
+    shards = [(bits, 0) for bits in range(16)] + [(bits, 1) for bits in ((2, 6) if not ck.thorough else range(16))]
+    want = {}
+    outcomes: dict = {}
+    for bits, fin in shards:
+        tot = 0
+        for w in words(n):
+            r = scripted_parse(w, bits, fin)
+            tot = (tot + hash63([bits, fin, len(w), *w, *enc_result(r)])) & M63
+            ck.count('token_exhaustive_cases')
+            k = r[0] if r[0] != 'err' else ERR_NAMES.get(r[1], str(r[1]))
+            outcomes[k] = outcomes.get(k, 0) + 1
+        want[(bits, fin)] = tot
+    for k, v in sorted(outcomes.items()):
+        ck.hist('token_exhaustive_outcome', k, v)
+    vals = ck.coq_eval(IMPORTS, [f'tok_shard_hash gen_parsecfg {b} {f} {n}' for b, f in shards], name='tokenum', preamble=PRE)
+    if vals is None:
+        ck.obligation('correspondence:parse-token-exhaustive', False, 'model could not be evaluated')
+        ck.tie_broken.append('exhaustive token-level correspondence: model evaluation failed')
+        return
+    import re as _re
+    got = {sh: int(_re.sub(r'%[A-Za-z0-9_]+$', '', v.strip()), 0) for sh, v in zip(shards, vals)}
+    bad = [sh for sh in shards if got[sh] != want[sh]]
+    nwords = sum(9 ** k for k in range(n + 1))
+    detail = ''
+    if bad:
+        # locate one disagreement: literal model results for the first bad shard
+        b, f = bad[0]
+        lits = ck.coq_eval(IMPORTS, [f'tok_shard_cases gen_parsecfg {b} {f} {n}'], name='tokenum_cases', preamble=PRE)
+        if lits is not None:
+            model = {}
+            for m in _re.finditer(r'\[([0-9; ]*)\]', lits[0][1:-1]):
+                xs = [int(x) for x in m.group(1).split(';') if x.strip()]
+                model[tuple(xs[3:3 + xs[2]])] = xs[3 + xs[2]:]
+            for w in words(n):
+                r = scripted_parse(w, b, f)
+                if model.get(tuple(w)) != enc_result(r):
+                    detail = (f'; first disagreement: options {bits_opts(b)} ending {"error" if f else "EOF"} tokens '
+                              f'{[("STR:" + repr(SYM_TOKENS[x])) if x < 3 else ["NL", "{", "}", "FLAG:on", "FLAG:off", "="][x - 3] for x in w]}'
+                              f' implementation {r} model {model.get(tuple(w))}')
+                    ck.extra['token_disagreement'] = {'options': bits_opts(b), 'ending': f, 'tokens': list(w), 'impl': r,
+                                                      'model_encoded': model.get(tuple(w))}
+                    break
+        ck.tie_broken.append('exhaustive token-level correspondence (KV/KvParse.v vs Keyvalues.parse on a scripted tokenizer)')
+    ck.obligation('correspondence:parse-token-exhaustive', not bad,
+                  f'all {nwords} token strings up to length {n} over 9 symbols x {len(shards)} (option vector, ending) pairs, '
+                  f'prun (vm_compute) vs Keyvalues.parse on a scripted tokenizer, checksum per pair: '
+                  f'{len(bad)} pairs differ' + detail)
 
 
 # ------------------------------------------------------------------------------------------------ dynamic tie of the tables
@@ -886,6 +991,9 @@ def run(ck: Ck) -> None:
             fin(results[at:at + len(jobs)])
             at += len(jobs)
         stage['tables+correspondences'] = round(time.time() - t_stage, 1)
+        t_stage = time.time()
+        corr_tokens(ck)
+        stage['token-exhaustive'] = round(time.time() - t_stage, 1)
     t_stage = time.time()
     search(ck)
     stage['search'] = round(time.time() - t_stage, 1)
